@@ -197,24 +197,34 @@ _rec_contract = Spec.__new__(Spec)
 
 
 def _recursive_stub(cx):
-    """self.send_packet(MSG_IGNORE, String(b'')) inside send_packet: assume the contract proved below for
-    a non-deferred transport packet (type 2 <= 49 never recurses again: well-founded)."""
+    """self.send_packet(MSG_IGNORE, String(b'')) inside send_packet, through the function's OWN contract (proved
+    below; type 2 <= 49 never recurses again: well-founded).  The nested call re-evaluates the rekey trigger with
+    a later clock value, so it may itself start a key exchange (KEXINIT goes out, _kex_complete becomes False)."""
     ex, st = cx.ex, cx.st
     t = cx.args[0].z
     cx.require('recursion-is-well-founded(pkttype<=49)', t <= 49)
-    seq = cx.fresh('int', 'rec_seq')
-    sent = cx.fresh('int', 'rec_bytes')
     old_seq = cx.selff('_send_seq').z
     strict = cx.selff('_strict_kex').z
-    normal = Out(sets={'_send_seq': seq, '_rekey_bytes_sent': sent},
-                 assume=[seq.z == z3.If(z3.And(t == 21, strict), 0, (old_seq + 1) % 2 ** 32),
-                         sent.z >= cx.selff('_rekey_bytes_sent').z],
-                 event=('nested_send', tuple(cx.args)))
+
+    def normal():
+        seq = cx.fresh('int', 'rec_seq')
+        sent = cx.fresh('int', 'rec_bytes')
+        return Out(sets={'_send_seq': seq, '_rekey_bytes_sent': sent},
+                   assume=[seq.z == z3.If(z3.And(t == 21, strict), 0, (old_seq + 1) % 2 ** 32),
+                           sent.z >= cx.selff('_rekey_bytes_sent').z],
+                   event=('nested_send', tuple(cx.args)))
+    # the nested call found a limit reached (rekey-trigger clause of the contract): KEXINIT + IGNORE emitted
+    seq2 = cx.fresh('int', 'rec_seq_kex')
+    tm = cx.fresh('int', 'rec_time')
+    started = Out(sets={'_send_seq': seq2, '_rekey_bytes_sent': VInt(0), '_kex_complete': VBool(False),
+                        '_rekey_time': tm, '_kexinit_sent': VBool(True)},
+                  assume=[seq2.z >= 0, seq2.z < 2 ** 32, cx.selff('_auth_complete').z, cx.selff('_kex_complete').z],
+                  event=('nested_send_started_kex', tuple(cx.args)))
     # rollover before the first encryption cannot happen here: the nested call is made only while encrypting
-    return [normal, Out(exc=VExc('CompressionError'))]
+    return [normal(), started, Out(exc=VExc('CompressionError'))]
 
 
-_recursive_stub.modifies = ('_send_seq', '_rekey_bytes_sent')
+_recursive_stub.modifies = ('_send_seq', '_rekey_bytes_sent', '_kex_complete', '_rekey_time', '_kexinit_sent')
 
 send_packet = _mk_send_packet(
     'C11',
